@@ -808,35 +808,46 @@ func (c *Compiler) compileUTF84ByteRange(lo, hi rune, endState StateID) []StateI
 	}
 
 	// UTF-8 4-byte encoding: 11110xxx 10xxxxxx 10xxxxxx 10xxxxxx
-	// For simplicity, use a conservative approach: match any valid 4-byte sequence in range
-	// This creates more states but is correct
-
-	loLead := byte(0xF0 | (lo >> 18))
-	hiLead := byte(0xF0 | (hi >> 18))
-
-	for leadVal := loLead; leadVal <= hiLead; leadVal++ {
-		// Determine cont1 range for this lead byte
-		var c1Lo, c1Hi byte
-		if leadVal == 0xF0 {
-			c1Lo = 0x90 // F0 requires cont1 >= 0x90
-		} else {
-			c1Lo = 0x80
-		}
-		if leadVal == 0xF4 {
-			c1Hi = 0x8F // F4 requires cont1 <= 0x8F
-		} else {
-			c1Hi = 0xBF
-		}
-
-		// Build states for each lead byte value
-		cont3 := c.builder.AddByteRange(0x80, 0xBF, endState)
-		cont2 := c.builder.AddByteRange(0x80, 0xBF, cont3)
-		cont1 := c.builder.AddByteRange(c1Lo, c1Hi, cont2)
-		lead := c.builder.AddByteRange(leadVal, leadVal, cont1)
+	// Split [lo, hi] into sub-ranges whose encodings differ only inside one
+	// contiguous byte range per position, and chain four byte-range states for
+	// each: exactly the code points of the range are accepted.
+	for _, seq := range utf84ByteSequences(lo, hi) {
+		cont3 := c.builder.AddByteRange(seq[3][0], seq[3][1], endState)
+		cont2 := c.builder.AddByteRange(seq[2][0], seq[2][1], cont3)
+		cont1 := c.builder.AddByteRange(seq[1][0], seq[1][1], cont2)
+		lead := c.builder.AddByteRange(seq[0][0], seq[0][1], cont1)
 		starts = append(starts, lead)
 	}
 
 	return starts
+}
+
+// utf84ByteSequences splits the rune range [lo, hi] (both encoded with four
+// bytes) into sequences of four byte ranges such that a byte string is the
+// encoding of a rune in [lo, hi] exactly when it matches one of the sequences.
+func utf84ByteSequences(lo, hi rune) [][4][2]byte {
+	// If the ranges of the trailing i continuation bytes are not full while
+	// the leading part differs, cut at the boundary so every piece has the
+	// form prefix + [a-b] + full continuation ranges.
+	for i := uint(1); i < 4; i++ {
+		m := rune(1)<<(6*i) - 1
+		if lo&^m != hi&^m {
+			if lo&m != 0 {
+				return append(utf84ByteSequences(lo, lo|m), utf84ByteSequences((lo|m)+1, hi)...)
+			}
+			if hi&m != m {
+				return append(utf84ByteSequences(lo, (hi&^m)-1), utf84ByteSequences(hi&^m, hi)...)
+			}
+		}
+	}
+	var a, b [4]byte
+	encodeRune(a[:], lo)
+	encodeRune(b[:], hi)
+	var seq [4][2]byte
+	for k := 0; k < 4; k++ {
+		seq[k] = [2]byte{a[k], b[k]}
+	}
+	return [][4][2]byte{seq}
 }
 
 // buildUTF8NonASCIIBranches builds NFA branches for all valid UTF-8 multi-byte sequences.
